@@ -35,7 +35,8 @@ def share(env, z, sh, E):
     q = env.q
     S = env.shell
     edge = {s: q("EdgeEnergy", z, S[s]) for s in ("K", "L1", "L2", "L3")}
-    above = {s: (edge[s] is not None and E > edge[s]) for s in edge}
+    incl = getattr(env, "incl", False)      # which side an energy exactly equal to an edge belongs to is not stated: see exact_edges()
+    above = {s: (edge[s] is not None and (E > edge[s] or (incl and E == edge[s]))) for s in edge}
     f = 1.0
     if above["K"]:
         rK = q("JumpFactor", z, S["K"])
@@ -114,7 +115,7 @@ def branch_id(env, z, E):
 
 def expect_shell(env, z, shname, E, cache):
     """expected CS_FluorShell: None = error, else (value, zero_share)"""
-    key = (z, shname, E)
+    key = (z, shname, E, getattr(env, "incl", False))
     if key in cache:
         return cache[key]
     res = None
@@ -184,6 +185,13 @@ def judge(st, env, fn, z, macro, E, exp, label, tol=TOL):
         st.cls("zero_share")
         if not ((err is None and got == 0.0) or (err is not None and got == 0.0)):
             st.violation("zero-share:%s" % fn, case, "0.0 (with or without error)", dict(value=got, error=err))
+        elif len(exp) > 2 and not exp[2] and label not in ("K", "L1", "L2", "L3"):
+            # a line is its shell's value times a rate: with the rate available, the line call fails exactly when the shell call at that energy does
+            sh = line_shell(label)
+            gs, es = env.L.call(fn.replace("Line", "Shell"), z, env.shell[sh], E)
+            if (es is None) != (err is None):
+                st.violation("zero-share-error-state:%s" % fn, case, dict(shell_call=dict(value=gs, error=es), note="the line's rate is available"),
+                             dict(value=got, error=err))
         return
     st.cls("value")
     if err is not None:
@@ -197,6 +205,43 @@ def judge(st, env, fn, z, macro, E, exp, label, tol=TOL):
         st.nt_key(fn, z, macro, b)
         st.cls("branch:" + b)
     st.sample("%s:%s" % (fn, kindof(label)), dict(case, expected=val, got=got), cap=1)
+
+
+def fits(exp, got, err, tol=TOL):
+    if exp is None:
+        return err is not None and got == 0.0
+    if exp[1] or exp[0] == 0.0:
+        return got == 0.0
+    return err is None and xrl.relerr(got, exp[0]) <= tol
+
+
+def exact_edges(st, env, z, cache):
+    """energies bit-equal to an edge of the element.  The statement speaks of 'edges lying below the energy' and does not say to which side the
+    edge itself belongs, so both readings are accepted - but one reading per energy: the four sub-shell answers (and a line of each) at that
+    energy are fractions of one absorption event and have to be derived from the same set of excited edges."""
+    S = env.shell
+    for s0 in ("K", "L1", "L2", "L3"):
+        E = env.q("EdgeEnergy", z, S[s0])
+        if not E:
+            continue
+        got = {}
+        for sh in ("K", "L1", "L2", "L3"):
+            got[sh] = env.L.call("CS_FluorShell", z, S[sh], E)
+            st.ev()
+        readings = {}
+        for incl in (False, True):
+            env.incl = incl
+            readings[incl] = {sh: expect_shell(env, z, sh, E, cache) for sh in got}
+        env.incl = False
+        ok = [incl for incl in readings if all(fits(readings[incl][sh], *got[sh]) for sh in got)]
+        st.cls("exact_edge")
+        if not ok:
+            st.violation("exact-edge:CS_FluorShell", dict(Z=z, E=E, edge=s0),
+                         dict(edge_counts_as_below={sh: readings[False][sh] and readings[False][sh][0] for sh in got},
+                              edge_counts_as_excited={sh: readings[True][sh] and readings[True][sh][0] for sh in got}),
+                         {sh: dict(value=got[sh][0], error=got[sh][1]) for sh in got})
+        else:
+            st.nt_key("exact-edge", z, s0)
 
 
 def kindof(label):
@@ -251,6 +296,8 @@ def work(item):
                 if e is not None and aw is not None:
                     eb = (e[0] * aw / env.avog, e[1])
                 judge(st, env, "CSb_FluorShell", z, sv, E, eb, sname)
+        if 1 <= z <= env.h.val["ZMAX"]:
+            exact_edges(st, env, z, cache)
         # lines: all macros on a sub-sample of energies (all energies in the thorough tier)
         sel = Es if not quick else [E for i, E in enumerate(Es) if E > 0 and (i % 3 == z % 3)]
         for E in sel:
@@ -261,7 +308,7 @@ def work(item):
                 judge(st, env, "CS_FluorLine", z, m, E, e, name, tol)
                 eb = None
                 if e is not None and aw is not None:
-                    eb = (e[0] * aw / env.avog, e[1])
+                    eb = (e[0] * aw / env.avog,) + tuple(e[1:])
                 judge(st, env, "CSb_FluorLine", z, m, E, eb, name, tol)
     return st
 
@@ -277,7 +324,7 @@ def run(ctx):
     ctx.stats.merge(common.pmap(work, items))
     ctx.assumptions = ["primitives (EdgeEnergy, JumpFactor, CosKronTransProb, FluorYield, RadRate, CS_Photo) are decided by C01/C02",
                        "when the reference share is exactly 0 (tabulated jump ratio 1) both '0.0 without error' and 'error' are accepted",
-                       "energies exactly equal to an edge are not generated (the property does not say which side the edge belongs to)"]
+                       "at energies exactly equal to an edge either side is accepted for the edge (the property does not say which side it belongs to), but the same side in all four sub-shell answers at that energy"]
 
 
 def replay(ctx, rec):
